@@ -663,6 +663,9 @@ pub fn run(tier: Tier) -> i32 {
     rep.cov("needles", needles().len() as u64);
     rep.cov("exhaustive", r.completed && r2.completed);
     rep.cov("rule", "every scenario of the product runs on the real accept path under a trace-level capturing logger; every record is searched for every canary (verbatim header values, base64 tokens, their decoded forms, SNI labels, configured passwords incl. one no client uses); a leak is identified by (secret kind, source file, message template)");
+    rep.sample(json!({"kind":"scenario","scenario":scs.first()}));
+    rep.sample(json!({"kind":"scenario","scenario":scs.get(scs.len() / 2)}));
+    rep.sample(json!({"kind":"tls","sni":"label-on-unknown-host","auth":"other-scheme"}));
     rep.assume("log records emitted on other threads than the one driving the scenario (none of the driven paths has any) and by the QUIC path are not seen");
     if n_rec == 0 {
         rep.violation(Violation::new("C20:machinery", "the capturing logger saw no records at all", json!({})));
